@@ -89,6 +89,27 @@ def Family(name, rng):
         Rule([('col0', Op('+', x, Lit(N(1))), '')],
              [Atom('Even', [('col0', x)])], True)])
     return [Even, Odd], [['Even', 'Odd']], {}
+  if name == 'pingpong':
+    # mutual counters that never converge: the exact number of applications
+    # stays observable at every depth
+    Ping = Pred('Ping', [
+        Rule([('col0', Lit(N(0)), '')], [], True),
+        Rule([('col0', Op('+', x, Lit(N(1))), '')],
+             [Atom('Pong', [('col0', x)])], True)])
+    Pong = Pred('Pong', [
+        Rule([('col0', Op('+', x, Lit(N(1))), '')],
+             [Atom('Ping', [('col0', x)])], True)])
+    return [Ping, Pong], [['Ping', 'Pong']], {}
+  if name == 'counter_distinct':
+    # a distinct predicate with several rules goes through the multi-body
+    # aggregation rewrite (auxiliary predicate inside the recursive group)
+    Nat = Pred('Nat', [
+        Rule([('col0', Lit(N(0)), ''), ('logica_value', Lit(N(0)), 'Max')], [],
+             True),
+        Rule([('col0', Op('+', x, Lit(N(1))), ''),
+              ('logica_value', Op('+', d, Lit(N(2))), 'Max')],
+             [Atom('Nat', [('col0', x), ('logica_value', d)])], True)])
+    return [Nat], [['Nat']], {}
   if name == 'cycle3':
     A = Pred('A', [Base(), Step('A', 'C')])
     B = Pred('B', [Step('B', 'A')])
@@ -115,7 +136,8 @@ def Family(name, rng):
 
 
 FAMILIES = ['tc_set', 'tc_bag', 'counter', 'sp_min', 'evenodd', 'cycle3',
-            'complete3', 'twocycles', 'two_components']
+            'complete3', 'twocycles', 'two_components', 'pingpong',
+            'counter_distinct']
 
 
 def Case(name, depth, iterative, rng, cid):
